@@ -252,6 +252,13 @@ func genNitro(variant string, seed uint64, tier string) *Plan {
 		p.Sched.Disabled = nil
 		p.Sched.MaxSteps = 3000000
 	}
+	// drawn last so that the rest of the plan is what it was before these existed
+	k["late_scan"] = r.Intn(2) // the final closers re-scan every snapshot right before closing it
+	if nw >= 2 && variant != "nitro_backlog" && r.Bool(0.4) {
+		// after everything else is quiescent: every writer puts and deletes private keys
+		// (same-epoch deletes, each flushing a barrier session) and nothing follows but Close
+		k["burst"] = r.Range(1, 5)
+	}
 	return p
 }
 
@@ -371,6 +378,9 @@ func runNitro(env *Env) {
 				for i, r := range left {
 					if i%nfc == c {
 						s.Yield(SiteHarnessOp)
+						if plan.Knob("late_scan", 0) == 1 {
+							ne.lateScan(fmt.Sprintf("fc%d", c), r)
+						}
 						ne.closeOwner(r)
 					}
 				}
@@ -480,6 +490,25 @@ func (ne *nitroEnv) finalStages() {
 	if snaps := ne.db.GetSnapshots(); len(snaps) != 0 {
 		env.Violate("C08", "snapshot-not-retired", "GetSnapshots() lists %d snapshots after every handle was closed", len(snaps))
 	}
+	// ItemsCount was brought up to date by the last NewSnapshot (nothing was written
+	// since): it must be the number of live items linked in the store
+	{
+		phys, _ := ne.physicalSet()
+		live := 0
+		for _, v := range phys {
+			if v.dead == 0 {
+				live++
+			}
+		}
+		if ic := ne.db.ItemsCount(); int(ic) != live {
+			env.Violate("C06", "itemscount-drift", "at quiescence after every snapshot was closed: ItemsCount()=%d, %d live items are linked in the store", ic, live)
+		}
+	}
+	if nb := env.Plan.Knob("burst", 0); nb > 0 {
+		if !ne.burst(nb) {
+			return
+		}
+	}
 	if ne.mm && !ne.allocShared {
 		// C17 at nitro level: idle database holds no unlinked-but-unfreed nodes
 		phys, _ := ne.physicalSet()
@@ -513,6 +542,61 @@ func (ne *nitroEnv) finalStages() {
 		}
 	}
 	env.ProbeN("snapshots", len(ne.snaps))
+}
+
+// lateScan: a snapshot that is about to be closed by its owner still presents
+// its content, whatever was closed and collected meanwhile.
+func (ne *nitroEnv) lateScan(name string, rec *snapRec) {
+	if rec == nil || !rec.ownerOpen || rec.closing {
+		return
+	}
+	s := ne.s
+	s.BeginOp()
+	defer s.EndOp()
+	items, _, ok := ne.scanAll(rec.snap, 0, -1, false)
+	if !ok {
+		ne.env.Violate("C08", "newiterator-nil-on-held-snapshot", "%s: NewIterator returned nil on snapshot %d held by its owner", name, rec.idx)
+		return
+	}
+	if d := diffExact(items, rec.ms.content); d != "" {
+		ne.env.Violate("C01", "scan-differs", "%s: scan of snapshot %d right before its owner closes it: %s", name, rec.idx, d)
+	}
+	if c := rec.snap.Count(); int(c) != len(rec.ms.content) {
+		ne.env.Violate("C01", "count-differs", "%s: Count() of snapshot %d = %d right before its owner closes it, expected %d", name, rec.idx, c, len(rec.ms.content))
+	}
+	ne.env.Logf("%s late scan s%d -> %d items", name, rec.idx, len(items))
+	ne.env.Probe("late_scans")
+}
+
+// burst: every writer puts and deletes n private keys within the current epoch
+// while the others do the same; the store ends up as it was. Each delete flushes
+// a barrier session, sessions terminate concurrently, and nothing but Close follows.
+func (ne *nitroEnv) burst(n int) bool {
+	env, s := ne.env, ne.s
+	for wi := range ne.writers {
+		wi := wi
+		w := ne.writers[wi]
+		name := fmt.Sprintf("b%d", wi)
+		s.Go(name, func() {
+			for j := 0; j < n; j++ {
+				k := 500 + wi*20 + j
+				s.Yield(SiteHarnessOp)
+				s.BeginOp()
+				okPut := w.Put2(ne.newItem(k, name)) != nil
+				s.EndOp()
+				s.Yield(SiteHarnessOp)
+				s.BeginOp()
+				okDel := w.Delete(ne.probeItem(k))
+				s.EndOp()
+				env.Logf("%s burst k%d put=%v del=%v", name, k, okPut, okDel)
+				if !okPut || !okDel {
+					env.Violate("C02", "burst-result", "%s: Put then Delete of private key k%d returned %v, %v", name, k, okPut, okDel)
+				}
+			}
+		})
+	}
+	env.Probe("bursts")
+	return env.Finish(s.Run(), "C07")
 }
 
 func containsStr(s, sub string) bool { return indexOf(s, sub) >= 0 }
